@@ -879,9 +879,21 @@ class PytatoKeyBuilder(LoopyKeyBuilder):
         self.rec(key_hash, key.data.tobytes())
 
     def update_for_numpy_scalar(self, key_hash: Any, key: Any) -> None:
-        # the raw bytes alone do not determine the scalar
-        self.rec(key_hash, key.dtype.str)
-        super().update_for_numpy_scalar(key_hash, key)
+        import numpy as np
+        # The raw bytes alone do not determine the scalar (float32(1) and
+        # int32(1065353216) share them), and a numpy scalar compares equal to
+        # the python number of the same value: key it like that number.
+        if isinstance(key, np.bool_):
+            self.update_for_bool(key_hash, bool(key))
+        elif isinstance(key, np.integer):
+            self.update_for_int(key_hash, int(key))
+        elif isinstance(key, np.floating) and key.dtype.itemsize <= 8:
+            self.update_for_float(key_hash, float(key))
+        elif isinstance(key, np.complexfloating) and key.dtype.itemsize <= 16:
+            self.update_for_complex(key_hash, complex(key))
+        else:
+            self.rec(key_hash, key.dtype.str)
+            super().update_for_numpy_scalar(key_hash, key)
 
     def update_for_TaggableCLArray(self, key_hash: Any, key: Any) -> None:
         from arraycontext.impl.pyopencl.taggable_cl_array import (  # pylint: disable=import-error
